@@ -3,6 +3,12 @@
 EXTENDS VP9, TraceIO
 VARIABLES l, st
 Fresh == [poisoned |-> FALSE, id |-> 0, started |-> FALSE]
+HugeReason(e) ==     \* one item of about 17 MB: the harness reports lengths and equality facts (the bytes do not travel)
+  IF e.res # "ok" THEN "huge_item_panic"
+  ELSE IF e.nfrags = 0 THEN "huge_item_no_packets"
+  ELSE IF e.maxlen > e.mtu THEN "huge_item_fragment_exceeds_mtu"
+  ELSE IF \E k \in 1..Len(e.facts) : ~e.facts[k] THEN "huge_item_not_reproduced"
+  ELSE ""
 DecodeReason(e) ==
   IF e.res = "panic" THEN "decode_panic"
   ELSE IF ~e.wantok THEN (IF e.res = "err" THEN "" ELSE "truncated_descriptor_accepted")
@@ -52,6 +58,7 @@ Next ==
   /\ LET e == Trace[l] IN
        IF e.ev = "reset" THEN st' = Fresh
        ELSE IF st.poisoned THEN UNCHANGED st
+       ELSE IF e.ev = "huge" THEN LET r == HugeReason(e) IN (IF r = "" THEN TRUE ELSE Reject(e, r)) /\ UNCHANGED st
        ELSE IF e.ev = "decode" THEN LET r == DecodeReason(e) IN (IF r = "" THEN TRUE ELSE Reject(e, r)) /\ UNCHANGED st
        ELSE IF e.ev = "header" THEN LET r == HeaderReason(e) IN (IF r = "" THEN TRUE ELSE Reject(e, r)) /\ UNCHANGED st
        ELSE IF e.ev = "payload" THEN
